@@ -98,14 +98,12 @@ func harnessFn(name string) externalFn {
 }
 
 func (c *Ctx) freshIn(label string, k types.BasicKind, lo, hi int64) value {
-	s := c.Fresh(label, k)
 	if c.Mode == Math {
-		s.T.Lo, s.T.Hi = big.NewInt(lo), big.NewInt(hi)
-		c.Assume(c.B.And(c.B.IntCmp("<=", c.B.IntC64(lo), s.T), c.B.IntCmp("<=", s.T, c.B.IntC64(hi))))
-	} else {
-		w := kindWidth(k)
-		c.Assume(c.B.And(c.B.BVCmp("bvsle", c.B.BVC(uint64(lo), w), s.T), c.B.BVCmp("bvsle", s.T, c.B.BVC(uint64(hi), w))))
+		return c.freshRange(label, k, big.NewInt(lo), big.NewInt(hi))
 	}
+	s := c.Fresh(label, k)
+	w := kindWidth(k)
+	c.Assume(c.B.And(c.B.BVCmp("bvsle", c.B.BVC(uint64(lo), w), s.T), c.B.BVCmp("bvsle", s.T, c.B.BVC(uint64(hi), w))))
 	return s
 }
 
